@@ -53,6 +53,8 @@ type State struct {
 	path   []string // trace of block indices for reporting
 	fnAt   map[string]*FnVal // function values stored in variable cells (by cell ref)
 	loopLog map[int]int // loop ordinal -> length of the call log at the last loop head
+	headEnv map[int]map[string]*Val // loop ordinal -> locals at the head of the current iteration
+	headHeap map[int]map[string]string
 	dead   bool
 }
 
@@ -103,6 +105,16 @@ func (st *State) clone() *State {
 	n.pc = append([]string(nil), st.pc...)
 	n.defers = append([]deferred(nil), st.defers...)
 	n.log = append([]CallEvent(nil), st.log...)
+	if st.headEnv != nil {
+		n.headEnv = map[int]map[string]*Val{}
+		n.headHeap = map[int]map[string]string{}
+		for k, v := range st.headEnv {
+			n.headEnv[k] = v
+		}
+		for k, v := range st.headHeap {
+			n.headHeap[k] = v
+		}
+	}
 	n.path = append([]string(nil), st.path...)
 	return n
 }
